@@ -7,6 +7,7 @@ The values of engine-native pass-through functions are not decided here (see `C1
 -/
 import SqlframeModel.Impl.C17
 import SqlframeModel.Impl.C17Soundex
+import SqlframeModel.Lemmas.C17Compose
 namespace Sqlframe
 open Gen.Emul C17
 
@@ -414,6 +415,159 @@ example : H_soundexFirstLetter (sxEnc "Ashcraft") := ⟨65, (sxEnc "shcraft").ma
 theorem C17_cex_soundexFirstLetter :
     emulSoundexN (sxEnc "  pad  ") = sxEnc " 130" ∧ sparkSoundexN (sxEnc "  pad  ") = sxEnc "  pad  " := by decide
 
+-- ==========================================================================================================
+-- compositions around engine functions (Impl/C17Compose.lean, Gen/EmulCompose.lean)
+-- ==========================================================================================================
+
+
+theorem C17_levenshtein_partial (d t : Option Int) (h : H_levenshteinNullInput d t) :
+    emulLevenshtein d t = sparkLevenshtein d t := by
+  unfold H_levenshteinNullInput at h
+  cases d with
+  | none =>
+    cases t with
+    | none => rfl
+    | some th => simp at h
+  | some dv =>
+    cases t with
+    | none => rfl
+    | some th =>
+      simp [emulLevenshtein, emulLevenshteinWith, sparkLevenshtein, levOperand, cmpOf, levThresholdCmp, levThresholdLeft,
+        levThresholdRight, levThresholdThen, levThresholdElse]
+      split <;> rfl
+
+/-- with both inputs present: a threshold never changes a distance it admits and answers exactly -1 otherwise, and
+    raising the threshold never loses an answer -/
+theorem C17_levenshtein_threshold (d t : Int) (hd : 0 ≤ d) :
+    emulLevenshtein (some d) (some t) = some (if d ≤ t then d else -1) ∧
+    (∀ t', t ≤ t' → emulLevenshtein (some d) (some t) = some d → emulLevenshtein (some d) (some t') = some d) := by
+  have e : ∀ t, emulLevenshtein (some d) (some t) = some (if d ≤ t then d else -1) := fun t => by
+    rw [C17_levenshtein_partial (some d) (some t) (Or.inl rfl)]; rfl
+  refine ⟨e t, ?_⟩
+  intro t' htt h
+  rw [e t] at h
+  rw [e t']
+  have hdt : d ≤ t := by
+    by_cases hc : d ≤ t
+    · exact hc
+    · simp [hc] at h; omega
+  have : d ≤ t' := by omega
+  simp [this]
+
+/-- the assumed engine primitive at its edges: the distance to / from the empty string is the other string's length -/
+theorem C17_levenshtein_empty (s : List Char) : duckLevenshtein [] s = s.length ∧ duckLevenshtein s [] = s.length := by
+  constructor
+  · simp [duckLevenshtein, List.range_succ]
+  · simp [duckLevenshtein, List.range_succ, lev_fold_nil]
+
+theorem C17_cex_levenshteinNullInput :
+    emulLevenshtein none (some 2) = some levThresholdElse ∧ sparkLevenshtein none (some 2) = none := by decide
+
+theorem C17_dayofweek (o : Int) : emulDayOfWeek o = sparkDayOfWeek o ∧ 1 ≤ emulDayOfWeek o ∧ emulDayOfWeek o ≤ 7 := by
+  simp only [emulDayOfWeek, sparkDayOfWeek, duckDayOfWeek, dayofweekDuckAddend]
+  refine ⟨trivial, ?_, ?_⟩ <;> omega
+
+theorem C17_nanvl_partial {α : Type} (nan : α → Bool) (c1 c2 : Option α) (h : H_nanvlNullInput c1) :
+    emulNanvl nan c1 c2 = sparkNanvl nan c1 c2 := by
+  unfold H_nanvlNullInput at h
+  cases c1 with
+  | none => simp at h
+  | some v =>
+    simp [emulNanvl, emulNanvlWith, sparkNanvl, nanvlNegated, nanvlTested, nanvlThen, nanvlElse]
+    cases nan v <;> simp
+
+theorem C17_cex_nanvlNullInput (nan : Int → Bool) : emulNanvl nan none (some 1) = some 1 ∧ sparkNanvl nan none (some 1) = none := by
+  simp [emulNanvl, emulNanvlWith, sparkNanvl, nanvlTested, nanvlElse]
+
+/-- the splice loop, for EVERY list of segments and columns of matching lengths: segment, column, segment, … in order;
+    in particular an EMPTY segment (two adjacent placeholders, a placeholder first or last) drops nothing. -/
+theorem C17_format_values (values cols : List (List Char)) (h : values.length = cols.length + 1) (hc : cols ≠ []) :
+    emulFormatValues values cols = some (interleave values cols) := format_values values cols h hc
+
+/-- nothing is dropped and nothing is added: the spliced text has exactly the characters of all segments and all columns -/
+theorem C17_format_length (values cols : List (List Char)) (h : values.length = cols.length + 1) (hc : cols ≠ []) :
+    ∃ out, emulFormatValues values cols = some out ∧ out.length = (values.map List.length).sum + (cols.map List.length).sum :=
+  ⟨_, format_values values cols h hc, interleave_length values cols h⟩
+
+/-- format_string on DuckDB, for EVERY format made of text and plain %s / %d placeholders (one per column, at least
+    one) and every list of column texts: the `||` splice is the text java.util.Formatter produces. -/
+theorem C17_format_string_partial (fmt : List Char) (cols : List (List Char)) (h : H_formatPlainPlaceholders fmt cols) :
+    emulFormat fmt cols = sparkFormat fmt cols := by
+  obtain ⟨hp, hl, hc⟩ := h
+  have hL : fmtPlaceholderLetters = ['d', 's'] := rfl
+  unfold emulFormat splitFmt
+  rw [hL, format_values _ _ hl hc, spark_split fmt cols hp hl]
+
+/-- counterexamples for `H_formatPlainPlaceholders`: a literal `%%` is copied as two characters, a format without a
+    placeholder raises (cols[0]), a width is not a placeholder the split knows (arity error) -/
+theorem C17_cex_formatPlainPlaceholders :
+    (emulFormat "100%%".toList ["a".toList] = none ∧ emulFormat "%s%%".toList ["a".toList] = some "a%%".toList ∧
+      sparkFormat "%s%%".toList ["a".toList] = some "a%".toList) ∧
+    (emulFormat "hello".toList [] = none ∧ sparkFormat "hello".toList [] = some "hello".toList) ∧
+    emulFormat "%5d".toList ["7".toList] = none := by decide
+
+example : H_formatPlainPlaceholders "k=%s%s%d;".toList ["ab".toList, "cd".toList, "7".toList] ∧
+    emulFormat "k=%s%s%d;".toList ["ab".toList, "cd".toList, "7".toList] = some "k=abcd7;".toList := by decide
+
+/-- Columns are values: for EVERY program of F.when / .when / .otherwise / operator steps, in which any earlier column
+    may be reused any number of times, each binding of sqlframe's object heap means what PySpark's immutable column
+    means — because Column.when and Column.otherwise work on a copy of the receiver (the generated flags). -/
+theorem C17_when_chain_pure (prog : List Step) : (hrun prog).view = prun prog := by
+  have h1 : whenCopiesReceiver = true := rfl
+  have h2 : otherwiseCopiesReceiver = true := rfl
+  unfold hrun hrunWith prun
+  rw [h1, h2]
+  have := (run_ok prog ⟨[], []⟩ (by intro e he; simp at he)).2
+  simpa [HSt.view] using this
+
+/-- frame: whatever is derived LATER — from this column or from any other — the meaning of a column that already exists
+    does not change (a kept prefix `base` stays `base`). -/
+theorem C17_when_frame (prog more : List Step) (j : Nat) (hj : j < (hrun prog).view.length) :
+    (hrun (prog ++ more)).view[j]? = (hrun prog).view[j]? := by
+  rw [C17_when_chain_pure] at hj ⊢
+  rw [C17_when_chain_pure]
+  unfold prun at hj ⊢
+  rw [List.foldl_append]
+  obtain ⟨ext, h⟩ := prun_prefix more (prog.foldl pstep [])
+  rw [h, List.getElem?_append_left hj]
+
+/-- what `.when(c, v)` does to the VALUE of a CASE column: rows an earlier branch already answers keep their value; of the
+    others, those satisfying the new condition get v; the rest keep ELSE / NULL. -/
+theorem C17_when_extends (c : CaseObj) (b : Branch) (x : Option Int) :
+    (addBranch c b).eval x = if c.ifs.any (·.holds x) then c.eval x else if b.holds x then some b.v else c.dflt := by
+  simp only [addBranch, CaseObj.eval, List.find?_append]
+  cases hf : c.ifs.find? (·.holds x) with
+  | some b' =>
+    have : c.ifs.any (·.holds x) = true := by
+      rw [List.any_eq_true]
+      exact ⟨b', List.mem_of_find?_eq_some hf, by simpa using List.find?_some hf⟩
+    simp [this]
+  | none =>
+    have : c.ifs.any (·.holds x) = false := by
+      rw [List.find?_eq_none] at hf
+      simpa [List.any_eq_false] using hf
+    simp only [this, Option.none_or, List.find?_cons, List.find?_nil]
+    cases b.holds x <;> simp
+
+/-- `.otherwise(v)` answers exactly the rows no branch answers -/
+theorem C17_otherwise_fills (c : CaseObj) (v : Int) (x : Option Int) (h : c.dflt = none) :
+    (setDefault c v).eval x = (c.eval x).or (some v) := by
+  simp only [setDefault, CaseObj.eval]
+  cases c.ifs.find? (·.holds x) <;> simp [h]
+
+/-- counterexample for the copy discipline: were `Column.when` to extend the receiver's own CASE (flag false), the kept
+    prefix `base = when(x > 0, 1)` and `base.otherwise(9)` would both answer -1 on negative rows after
+    `base.when(x < 0, -1)` was derived. -/
+theorem C17_cex_whenShares :
+    let prog := [Step.start ⟨.gt, 0, 1⟩, .when 0 ⟨.lt, 0, -1⟩, .otherwise 0 9]
+    evalAll (hrunWith false true prog).view [some (-5)] = [[some (-1)], [some (-1)], [some (-1)]] ∧
+    evalAll (prun prog) [some (-5)] = [[none], [some (-1)], [some 9]] := by decide
+
+/-- none of the PySpark Column API methods writes into the receiver's expression tree (generated survey of column.py) -/
+theorem C17_column_api_pure : columnApi.all (fun m => !columnSelfWriters.contains m) = true := by decide
+
+example : (hrun [.start ⟨.gt, 0, 1⟩, .when 0 ⟨.lt, 0, -1⟩, .otherwise 0 9, .un 0 .neg]).view.length = 4 := by decide
+
 -- dispatch ----------------------------------------------------------------------------------------------
 
 /-- Every DuckDB row of the generated dispatch table is unsupported, a modelled emulation dispatched to the
@@ -445,6 +599,15 @@ example : implOf "slice" "duckdb" = some "slice_as_list_slice" := by decide +ker
 /-- `H_sliceEnd` is satisfiable by a one-token edit of the source (the offset is a generated value) -/
 example : ∃ o : Int, o = -1 ∧ emulSliceWith o [1, 2, 3] 1 2 = sparkSlice [1, 2, 3] 1 2 := ⟨-1, rfl, by decide⟩
 
+example : emulLevenshtein (some 3) (some 3) = some 3 ∧ emulLevenshtein (some 3) (some 2) = some (-1) ∧ emulLevenshtein (some 0) (some 0) = some 0 := by decide
+example : H_levenshteinNullInput (some 3) (some 3) := by decide
+example : duckLevenshtein "kitten".toList "sitting".toList = 3 ∧ duckLevenshtein "flaw".toList "lawn".toList = 2 := by decide
+example : emulFormatValues ["".toList, "".toList, "".toList] ["ab".toList, "cd".toList] = some "abcd".toList := by decide
+example : emulNanvl (fun (x : Int) => x == 0) (some 0) (some 7) = some 7 ∧ emulNanvl (fun (x : Int) => x == 0) (some 5) (some 7) = some 5 := by decide
+example : emulDayOfWeek 738916 = 4 := by decide
+example : evalAll (hrun [.start ⟨.gt, 0, 1⟩, .when 0 ⟨.lt, 0, -1⟩, .otherwise 0 9]).view [some 5, some (-5), some 0, none] =
+    [[some 1, none, none, none], [some 1, some (-1), none, none], [some 1, some 9, some 9, some 9]] := by decide
+
 /-- C17 at full strength, for the part this technique can state: every modelled emulation returns Spark's
     value on its whole ordinary domain.  (The values of engine-native pass-through functions are not part of
     this statement: sqlframe contributes only a name there; they are compared with recorded Spark values by
@@ -458,9 +621,14 @@ def C17_full_statement : Prop :=
   (∀ a b step, emulSequence a b step = sparkSequence a b step) ∧
   (∀ n d, 0 < d → emulRint n d = sparkRint n d) ∧
   (∀ s r pos len, 1 ≤ pos → 0 ≤ len.getD r.length → emulOverlay s r pos len = sparkOverlay s r pos len) ∧
-  (∀ d n, emulDateAdd d n = sparkDateAdd d n ∧ emulDateSub d n = sparkDateSub d n)
+  (∀ d n, emulDateAdd d n = sparkDateAdd d n ∧ emulDateSub d n = sparkDateSub d n) ∧
+  (∀ d t, emulLevenshtein d t = sparkLevenshtein d t) ∧
+  (∀ fmt cols, (sparkFormat fmt cols).isSome → emulFormat fmt cols = sparkFormat fmt cols) ∧
+  (∀ (nan : Int → Bool) c1 c2, emulNanvl nan c1 c2 = sparkNanvl nan c1 c2) ∧
+  (∀ o, emulDayOfWeek o = sparkDayOfWeek o) ∧
+  (∀ prog, (hrun prog).view = prun prog)
 
-/-- what is proved of it: everything except the five hypotheses' complements -/
+/-- what is proved of it: everything except the hypotheses' complements -/
 theorem C17_partial :
     (∀ n : Nat, n ≤ 20 → emulFactorial n = sparkFactorial n) ∧
     (∀ xs k, k ≠ 0 → emulElementAt xs k = sparkElementAt xs k) ∧
@@ -470,8 +638,15 @@ theorem C17_partial :
     (∀ a b step, H_sequenceDefaultStep a b step → emulSequence a b step = sparkSequence a b step) ∧
     (∀ n d, H_rintTies n d → emulRint n d = sparkRint n d) ∧
     (∀ s r pos len, 1 ≤ pos → 0 ≤ len.getD r.length → emulOverlay s r pos len = sparkOverlay s r pos len) ∧
-    (∀ d n, emulDateAdd d n = sparkDateAdd d n ∧ emulDateSub d n = sparkDateSub d n) :=
+    (∀ d n, emulDateAdd d n = sparkDateAdd d n ∧ emulDateSub d n = sparkDateSub d n) ∧
+    (∀ d t, H_levenshteinNullInput d t → emulLevenshtein d t = sparkLevenshtein d t) ∧
+    (∀ fmt cols, H_formatPlainPlaceholders fmt cols → emulFormat fmt cols = sparkFormat fmt cols) ∧
+    (∀ (nan : Int → Bool) c1 c2, H_nanvlNullInput c1 → emulNanvl nan c1 c2 = sparkNanvl nan c1 c2) ∧
+    (∀ o, emulDayOfWeek o = sparkDayOfWeek o) ∧
+    (∀ prog, (hrun prog).view = prun prog) :=
   ⟨C17_factorial_duck, C17_element_at, C17_getItem, fun h xs s l => C17_slice_partial h xs s l,
-   fun xs v h => C17_array_position_partial xs v h, C17_sequence_partial, C17_rint_partial, C17_overlay, C17_date_add⟩
+   fun xs v h => C17_array_position_partial xs v h, C17_sequence_partial, C17_rint_partial, C17_overlay, C17_date_add,
+   C17_levenshtein_partial, C17_format_string_partial, fun nan c1 c2 h => C17_nanvl_partial nan c1 c2 h,
+   fun o => (C17_dayofweek o).1, C17_when_chain_pure⟩
 
 end Sqlframe
